@@ -164,7 +164,22 @@ func agreeEmbed(r *engine.Run) {
 	if w == nil || rd == nil {
 		return
 	}
-	// writer: order of items appended to the embedded child's bytes (branch guarded by child.(*shortNode))
+	// writer: order of items appended to the embedded child's bytes (branch guarded by child.(*shortNode));
+	// the encoding of a child reference may live in a helper of Serialize
+	for _, g := range opGroup(r, w) {
+		has := false
+		engine.Instrs(g, func(in ssa.Instruction) {
+			if ta, ok := in.(*ssa.TypeAssert); ok && ta.CommaOk {
+				if nm := namedOf(ta.AssertedType); nm != nil && nm.Obj().Name() == "shortNode" {
+					has = true
+				}
+			}
+		})
+		if has {
+			w = g
+			break
+		}
+	}
 	var items []string
 	var sn ssa.Value
 	engine.Instrs(w, func(in ssa.Instruction) {
